@@ -328,9 +328,9 @@ func jobsFor(prop, tier string) []*Job {
 			}
 		}
 	case "C08":
-		for part := 0; part < 8; part++ {
-			add(&Job{Name: fmt.Sprintf("O1O2-director-pipeline/mode=%d,part=%d", part/4, part%4), Pkg: "forward", Harness: "VerifC08Pipeline", Params: p("part", part%4, "mode", part/4), IncKind: "cvc5", TimeoutS: 60, Solvers: []string{"cvc5", "z3"},
-				Bounds: "real Director closure of forward.New inside a transcription of ReverseProxy's documented outbound steps; symbolic: passHostHeader, TLS, Host with/without port, peer address form (IPv4, IPv6, IPv6+zone), which forwarding headers an upstream proxy supplied, prior X-Forwarded-For, the subset of 7 header names listed in Connection, request target from a corpus of 11 (escaped slash/space, multi-byte, ';', '+', '//', dot segments, empty query)"})
+		for part := 0; part < 16; part++ {
+			add(&Job{Name: fmt.Sprintf("O1O2-director-pipeline/mode=%d,part=%d,lower=%d", part/4%2, part%4, part/8), Pkg: "forward", Harness: "VerifC08Pipeline", Params: p("part", part%4, "mode", part/4%2, "lower", part/8), IncKind: "cvc5", TimeoutS: 60, Solvers: []string{"cvc5", "z3"},
+				Bounds: "real Director closure of forward.New inside a transcription of ReverseProxy's documented outbound steps; symbolic: passHostHeader, TLS, Host with/without port, peer address form (IPv4, IPv6, IPv6+zone), which forwarding headers an upstream proxy supplied, prior X-Forwarded-For, the subset of 7 header names listed in Connection (canonical or lower-case spelling), request target from a corpus of 11 (escaped slash/space, multi-byte, ';', '+', '//', dot segments, empty query)"})
 		}
 	case "C20":
 		bd := "contract T(m): a symbolic handler script (header set/add/del, no/200/404/503 status, 0..2 writes, flush between writes, hijack) run bare and through the middleware on a recording writer offering Flush and Hijack; same status, body, headers (plus documented additions), call sequence, flush/hijack availability, handler invoked exactly once; contract D(m): one complete documented response and no handler call when the middleware intervenes; by induction on depth T(m) for each m gives transparency of every stack"
